@@ -20,7 +20,7 @@ LEVEL = "exploration"
 RULE = ("runs of 2-16 threads x 200-2000 records of 1-4096 (a third of the runs: 1-12000) bytes through (1) one logger on stdout_mt, (2) two "
         "logger types sharing stdout_mt, (3) sequence<stdout_mt, StdErrThreaded>, (4) StdErrThreaded, with seeded "
         "delays between statements and inside the stream buffer's write path, on a plain build (overlap detector + "
-        "offline capture checker), gcc/clang ThreadSanitizer builds and (thorough) an ASan build; "
+        "offline capture checker; in half of the runs the sinks have been used with another buffer before), gcc/clang ThreadSanitizer builds and (thorough) an ASan build; "
         "distinct_nontrivial = distinct thread-order sequences observed in the captures (one per run unless two "
         "runs interleaved identically), counted only for runs in which the buffer was entered while another "
         "thread was inside a log statement")
@@ -112,6 +112,7 @@ def evaluate(run_, r, rc, out, err, wd, stats, orders, samples):
     stats["entries-while-another-thread-was-logging"] += int(kv["contended"])
     stats["thread-switches-in-output"] += int(kv["switches"])
     stats["quiescent-points-checked"] += int(kv.get("rounds", 0))
+    stats["runs-with-sinks-used-before-the-capture-buffer-was-installed"] += int(kv.get("warmed", 0))
     if int(kv["contended"]) > 0 and not vs:
         orders.add(kv["order_hash"])
     if not vs and len(samples) < 4 and stats["runs:" + TOPO[topo]] == 1:
@@ -144,6 +145,8 @@ def run(tier, replay=None):
     if not replay:
         if stats.get("entries-while-another-thread-was-logging", 0) == 0:
             run_.inconc("the buffer was never entered while another thread was logging: no contention observed")
+        if stats.get("runs-with-sinks-used-before-the-capture-buffer-was-installed", 0) == 0:
+            run_.inconc("no run had used the sinks before the capture buffers were installed")
         for t in TOPO.values():
             if stats.get("runs:" + t, 0) == 0:
                 run_.inconc("topology never run: " + t)
